@@ -5,7 +5,8 @@ import re
 from vf import core
 from vf.core import Suite, coq_hex, coq_N
 from vf.gen import rbytes, pick_weighted, GRID
-from props import C34, C35
+from props import C34, C35, C10
+from props import C53gen as G
 
 ID = "C53"
 THEOREMS = ["C53_pktline_total", "C53_pktline_no_oob", "C53_sideband_total", "C53_packp_lines_bound", "C53_advrefs_alloc",
@@ -25,7 +26,8 @@ TRUSTED = [
     "exercise: harness/cmd/c53 mirrors the bodies of the repository's Fuzz* functions (call list checked against `func Fuzz` in the working tree on every run) and runs them under recover, a per-input deadline and a runtime.MemStats allocation budget",
 ]
 ASSUMPTIONS = ["a panic in a goroutine started by library code, or a runtime fatal error, kills the harness process and is reported as a missing reply",
-               "allocation is measured as the TotalAlloc delta of a single-threaded run; budget = 48 MiB + 2 KiB per input byte",
+               "allocation is measured as the TotalAlloc delta of a single-threaded run; budget = 48 MiB + 2 KiB per input byte "
+               "(+ 2 MiB per API call for the decode-then-every-lookup targets, which make hundreds of calls on one input)",
                "a decoder that needs more than the deadline (20 s) on an input of a few KiB is reported as a hang"]
 RULE = ("case = (Fuzz* entry point, arguments) from the f.Add seeds of the repository, their mutations (truncation at every third byte, bit "
         "flips, byte insertion, length-field grids, duplication), seeds of other targets, and random bytes; varint cases: all continuation "
@@ -34,6 +36,7 @@ RULE = ("case = (Fuzz* entry point, arguments) from the f.Add seeds of the repos
 DEADLINE_MS = 20000
 BUDGET_BASE = 48 << 20
 BUDGET_PER_BYTE = 2048
+BUDGET_PER_CALL = 2 << 20      # "decode, then every lookup" targets: each API call may inflate a whole delta chain (<= 50 zlib readers)
 
 
 def repo_fuzz_targets():
@@ -140,7 +143,7 @@ class Fuzz(Suite):
             n = sum(len(a) // 2 for a in c.get("args") or [])
             if r["out"] != "done":
                 fails[c["id"]] = "%s on %s: %s" % (r["out"], c["target"], (ex.get("panic") or "")[:300])
-            elif ex.get("alloc", 0) > BUDGET_BASE + BUDGET_PER_BYTE * n:
+            elif ex.get("alloc", 0) > BUDGET_BASE + BUDGET_PER_BYTE * n + BUDGET_PER_CALL * ex.get("calls", 0):
                 fails[c["id"]] = "%s allocated %d bytes on %d input bytes" % (c["target"], ex.get("alloc"), n)
         return fails
 
@@ -271,4 +274,99 @@ class Messages(C35.Msgs):
         return {}
 
 
-SUITES = [Fuzz(), Varint(), Framing(), Messages()]
+class Boundary(Fuzz):
+    """structurally VALID files of every binary format with each length / offset / count / index field on the values
+    {0, max-1, max, max+1} relative to the real size of what it refers to (props/C53gen.py), run through the fuzz entry
+    point of the format AND through the "decode, then every lookup API" targets of harness/cmd/c53/lookups.go.
+    The whole family is enumerated in both tiers (n is ignored); oracle as for the fuzz suite."""
+    name = "boundary"
+    go_cmd = "c53"
+    quick_n = 0
+    thorough_n = 0
+
+    def gen(self, rng, n, tier):
+        cases = []
+
+        def add(bucket, target, args):
+            cases.append({"bucket": bucket, "target": target, "args": [a.hex() for a in args], "deadline_ms": DEADLINE_MS})
+        for b, idx, rev, hs in G.idx_cases(rng, tier):
+            add(b, "verif/idx.Lookups", [idx, rev, bytes([hs])])
+            if hs == 20:
+                add(b, "plumbing/format/idxfile.FuzzMemoryIndex", [idx])
+                add(b, "plumbing/format/idxfile.FuzzLazyIndex", [idx, rev])
+                if b.startswith("rev-") or b == "idx-valid":
+                    add(b, "plumbing/format/revfile.FuzzDecode", [rev])
+        for b, pack, idx in G.pack_cases(rng, tier):
+            add(b, "verif/pack.Lookups", [pack, idx, bytes([20])])
+            if not idx:
+                add(b, "plumbing/format/packfile.FuzzParser", [pack])
+                add(b, "plumbing/format/packfile.FuzzScanner", [pack])
+        for b, src, d in G.delta_cases(rng, tier):
+            add(b, "verif/delta.Appliers", [src, d])
+            add(b, "plumbing/format/packfile.FuzzPatchDelta", [src, d])
+        for b, data in G.index_cases(rng, tier):
+            add(b, "verif/index.Lookups", [data, bytes([20])])
+            add(b, "plumbing/format/index.FuzzDecoder", [data])
+        for b, data in G.cg_cases(rng, tier):
+            add(b, "verif/commitgraph.Lookups", [data])
+            add(b, "plumbing/format/commitgraph.FuzzOpenFileIndex", [data])
+        for b, data in G.objfile_cases(rng, tier):
+            add(b, "plumbing/format/objfile.FuzzReader", [data])
+        for b, data in G.tree_cases(rng, tier):
+            add(b, "verif/object.Lookups", [bytes([1]), data])
+            add(b, "plumbing/object.FuzzTreeDecode", [data])
+        for b, kind, data in G.ident_cases(rng, tier):
+            if kind is None:
+                add(b, "plumbing/format/reflog.FuzzDecode", [data])
+            else:
+                add(b, "verif/object.Lookups", [bytes([kind]), data])
+                add(b, "plumbing/object.FuzzCommitDecode" if kind == 0 else "plumbing/object.FuzzTagDecode", [data])
+        for b, t, args in G.pkt_cases(rng, tier):
+            add(b, t, args)
+        return cases
+
+    def extra(self, ctx, cases, impl, model):
+        # which decoders ACCEPTED their boundary files (a family whose valid member is rejected has a broken builder)
+        acc, per = {}, {}
+        for c in cases:
+            r = impl.get(c["id"]) or {}
+            m = ((r.get("extra") or {}).get("marks")) or {}
+            fam = c["bucket"].split("-")[0]
+            per[fam] = per.get(fam, 0) + 1
+            if m:
+                acc[fam] = acc.get(fam, 0) + 1
+            if c["bucket"].endswith("-valid") and c["target"].startswith("verif/") and not m:
+                ctx.notes.append("boundary builder: the %s file of target %s was not accepted by its decoder" % (c["bucket"], c["target"]))
+        return {"boundary_cases_by_family": per, "boundary_cases_accepted_by_a_decoder": acc}
+
+
+class IdxModel(C10.File):
+    """the idx / rev boundary family once more through harness/cmd/c10 and Model/Idx.v (impl = model on every reader,
+    C10's oracle): ties the C53_idx_* theorems to the code on exactly the inputs where an off-by-one would show"""
+    name = "idxmodel"
+    quick_n = 0
+    thorough_n = 0
+    coq_chunk = 12
+
+    def gen(self, rng, n, tier):
+        cases = []
+        for b, idx, rev, hs in G.idx_cases(rng, tier):
+            if tier == "quick" and b not in ("idx-o64-slot", "idx-o64-table-len", "idx-valid", "rev-position"):
+                continue
+            lay = C10.layout(idx, hs)
+            ents = [(t[0], t[1] if t[1] is not None else 0, t[2]) for t in lay["tab"]] if lay else []
+            qs = [{"q": "offset", "h": e[0].hex()} for e in ents] + [{"q": "crc", "h": e[0].hex()} for e in ents[:2]]
+            qs += [{"q": "findhash", "o": str(e[1])} for e in ents[:3]]
+            qs += [{"q": "entries"}, {"q": "byoffset"}, {"q": "count"}, {"q": "prefix", "p": ents[0][0][:1].hex() if ents else ""}]
+            pack = idx[-2 * hs:-hs]
+            cases.append({"bucket": b, "kind": "file", "hs": hs, "idx": idx.hex(), "rev": rev.hex(), "pack": pack.hex(), "queries": qs})
+        return cases
+
+    def nontrivial(self, c):
+        return True
+
+    def finding_class(self, case, reason, reply):
+        return None
+
+
+SUITES = [Fuzz(), Boundary(), IdxModel(), Varint(), Framing(), Messages()]
